@@ -323,7 +323,7 @@ def d3_d4(ctx, prog, u, entry):
             continue
         node = f_.node_of(evs[0])
         if not (isinstance(node, ast.AugAssign) and isinstance(node.op, ast.Add)
-                and astutil.is_shape0(node.value, set(entry.params) - {'self'})):
+                and astutil.is_shape0(astutil.expand_locals(node.value, astutil.local_defs(entry.node)), set(entry.params) - {'self'})):
             problems.append(f'{u.count} changed by `{norm(node)[:80]}`, not `+= <batch>.shape[0]`')
     if problems:
         ctx.fail('C01-D4', key, f'{u.cls.name}: ' + '; '.join(sorted(set(problems))), entry.where())
